@@ -6,6 +6,7 @@ require (
 	github.com/bmatcuk/doublestar/v4 v4.8.1
 	github.com/go-jose/go-jose/v4 v4.0.5
 	github.com/zitadel/oidc/v3 v3.0.0
+	golang.org/x/net v0.36.0
 	golang.org/x/text v0.24.0
 )
 
